@@ -129,6 +129,9 @@ pub enum Op {
     Frame(Vec<f64>),
     SetAttack(f32),
     SetRelease(f32),
+    /// an infinite time constant (gain exp(-1/inf) = 1: the envelope holds); separate variants because JSON has no infinity
+    SetAttackInf,
+    SetReleaseInf,
 }
 
 #[derive(Clone, Debug, Serialize, Deserialize)]
@@ -140,6 +143,11 @@ pub struct EnvCase {
     pub ops: Vec<Op>,
     /// drive the detector through the `detect_envelope` signal adaptor
     pub adaptor: bool,
+    /// the detector is constructed with an infinite attack / release time
+    #[serde(default)]
+    pub attack_inf: bool,
+    #[serde(default)]
+    pub release_inf: bool,
 }
 
 /// nominal value -> sample, never the format minimum; integer amplitudes limited to `cap` of full scale
@@ -222,11 +230,13 @@ where
     let ok = <<D::Output as Frame>::Sample as Fmt>::KIND;
     let ik = <F::Sample as Fmt>::KIND;
     // F8 (open known finding): i32 near full scale with a gain that rounds to 1.0 — excluded by construction
-    let huge = c.attack > 1e7 || c.release > 1e7 || c.ops.iter().any(|o| matches!(o, Op::SetAttack(x) | Op::SetRelease(x) if *x > 1e7));
+    let (attack0, release0) = (if c.attack_inf { f32::INFINITY } else { c.attack }, if c.release_inf { f32::INFINITY } else { c.release });
+    let has_inf = c.attack_inf || c.release_inf || c.ops.iter().any(|o| matches!(o, Op::SetAttackInf | Op::SetReleaseInf));
+    let huge = has_inf || c.attack > 1e7 || c.release > 1e7 || c.ops.iter().any(|o| matches!(o, Op::SetAttack(x) | Op::SetRelease(x) if *x > 1e7));
     let cap = if ik == (Kind::Int { bits: 32, signed: true }) && huge { 0.5 } else { 1.0 };
-    let mut model = Model { attack: c.attack, release: c.release };
-    let mut det = Detector::new(mk_detect(), c.attack, c.release);
-    let mut unchanged = Detector::new(mk_detect(), c.attack, c.release);
+    let mut model = Model { attack: attack0, release: release0 };
+    let mut det = Detector::new(mk_detect(), attack0, release0);
+    let mut unchanged = Detector::new(mk_detect(), attack0, release0);
     let mut shadow = mk_detect();
     let mut changed = false;
     let mut l: Vec<Val> = <D::Output as Frame>::EQUILIBRIUM.channels().map(|s| s.to_val()).collect();
@@ -251,6 +261,16 @@ where
                 model.release = *x;
                 changed = true;
                 zero_tc |= *x == 0.0;
+            }
+            Op::SetAttackInf => {
+                det.set_attack_frames(f32::INFINITY);
+                model.attack = f32::INFINITY;
+                changed = true;
+            }
+            Op::SetReleaseInf => {
+                det.set_release_frames(f32::INFINITY);
+                model.release = f32::INFINITY;
+                changed = true;
             }
             Op::Frame(vals) => {
                 ensure!(!vals.is_empty(), "bad case: empty frame");
@@ -285,7 +305,7 @@ where
     }
     // changing attack/release mid-stream affects only subsequent frames: replay the prefix before the first change
     if changed {
-        let mut det2 = Detector::new(mk_detect(), c.attack, c.release);
+        let mut det2 = Detector::new(mk_detect(), attack0, release0);
         let mut i = 0;
         for op in &c.ops {
             match op {
@@ -300,12 +320,14 @@ where
     }
     if c.adaptor {
         // the signal adaptor feeds each source frame to the detector
-        let mut ad = signal::from_iter(frames_in.clone()).detect_envelope(Detector::new(mk_detect(), c.attack, c.release));
+        let mut ad = signal::from_iter(frames_in.clone()).detect_envelope(Detector::new(mk_detect(), attack0, release0));
         let mut i = 0;
         for op in &c.ops {
             match op {
                 Op::SetAttack(x) => ad.set_attack_frames(*x),
                 Op::SetRelease(x) => ad.set_release_frames(*x),
+                Op::SetAttackInf => ad.set_attack_frames(f32::INFINITY),
+                Op::SetReleaseInf => ad.set_release_frames(f32::INFINITY),
                 Op::Frame(_) => {
                     ensure!(!ad.is_exhausted(), "adaptor exhausted before frame {}", i);
                     let o = ad.next();
@@ -329,6 +351,7 @@ where
     st.class_if(matches!(ik, Kind::Int { signed: false, .. }), "unsigned format");
     st.class_if(matches!(c.det, Det::Rms(_)), "rms detection");
     st.class_if(huge, "time constant > 1e7 frames (gain rounds to 1.0)");
+    st.class_if(has_inf, "infinite time constant (the envelope holds)");
     Ok(())
 }
 
@@ -392,9 +415,9 @@ pub fn env_strategy() -> impl Strategy<Value = EnvCase> {
         prop_oneof![3 => (-1.0f64..1.0), 1 => proptest::sample::select(vec![0.0, 0.999, -0.999, 0.5, -0.5, 1e-4]), 1 => (-0.01f64..0.01)],
         1..4,
     );
-    let op = prop_oneof![14 => frame.prop_map(Op::Frame), 1 => time_const().prop_map(Op::SetAttack), 1 => time_const().prop_map(Op::SetRelease)];
-    (0usize..7, prop_oneof![1 => Just(Det::PeakFull), 1 => Just(Det::PeakPos), 1 => Just(Det::PeakNeg), 1 => (1usize..=32).prop_map(Det::Rms)], time_const(), time_const(), proptest::collection::vec(op, 1..400), 0usize..4, any::<bool>())
-        .prop_map(|(f, det, attack, release, mut ops, profile, adaptor)| {
+    let op = prop_oneof![56 => frame.prop_map(Op::Frame), 4 => time_const().prop_map(Op::SetAttack), 4 => time_const().prop_map(Op::SetRelease), 1 => Just(Op::SetAttackInf), 1 => Just(Op::SetReleaseInf)];
+    (0usize..7, prop_oneof![1 => Just(Det::PeakFull), 1 => Just(Det::PeakPos), 1 => Just(Det::PeakNeg), 1 => (1usize..=32).prop_map(Det::Rms)], time_const(), time_const(), proptest::collection::vec(op, 1..400), 0usize..4, any::<bool>(), 0usize..64)
+        .prop_map(|(f, det, attack, release, mut ops, profile, adaptor, inf)| {
             // profiles: plain, burst then silence (long release), constant input (monotone approach)
             let n = ops.len();
             for (i, o) in ops.iter_mut().enumerate() {
@@ -406,19 +429,19 @@ pub fn env_strategy() -> impl Strategy<Value = EnvCase> {
                     }
                 }
             }
-            EnvCase { ft: FTS[f], det, attack, release, ops, adaptor }
+            EnvCase { ft: FTS[f], det, attack, release, ops, adaptor, attack_inf: inf % 16 == 0, release_inf: inf % 16 == 1 }
         })
 }
 
 pub fn run(ctx: &mut Ctx) {
     ctx.set_rule(
         "rectifiers: (format, 1..=4 channel values) — every value of the 8/16-bit formats, boundary sets and random values of the others, the format minimum of integer formats excluded (no representable negation); \
-         envelope: (frame type out of f32, [f64;2], [i16;2], [I24;1], [i32;1], [u8;3], [u16;2]; peak full/positive/negative or rms window 1..=32; attack and release in {0, -0.0 (a zero: -0.0 >= 0), 1, 1e-3, 1e-30, 0.5, 10, 1e4, 1e9, random >= 0}; \
+         envelope: (frame type out of f32, [f64;2], [i16;2], [I24;1], [i32;1], [u8;3], [u16;2]; peak full/positive/negative or rms window 1..=32; attack and release in {0, -0.0 (a zero: -0.0 >= 0), 1, 1e-3, 1e-30, 0.5, 10, 1e4, 1e9, +infinity, random >= 0}; \
          history of up to 400 frames with set_attack_frames / set_release_frames at random steps; direct detector or detect_envelope adaptor); non-trivial: release path taken, zero time constant, parameter change mid-run, unsigned or multi-channel format",
     );
     ctx.assume("rectifier oracle: |amplitude| in the signed companion, max(s, equilibrium), min(s, equilibrium), exact; envelope oracle per channel: out in d + [g_lo, g_hi] (l - d) with g = exp(-1/frames) in f64 widened by 1e-5 relative (f32 powf), result widened by 2 ulp of the format's Float at scale max(|l|,|d|) and 1 LSB for integer formats; d is observed through a second instance of the same detector stage (rectifiers are checked here, RMS in C11)");
     ctx.assume("integer inputs exclude the format minimum (the statement's premise)");
-    for c in ["falling detected value (release path)", "zero time constant", "parameter change mid-run", "unsigned format", "rms detection", "detect_envelope adaptor", "time constant > 1e7 frames (gain rounds to 1.0)"] {
+    for c in ["falling detected value (release path)", "zero time constant", "parameter change mid-run", "unsigned format", "rms detection", "detect_envelope adaptor", "time constant > 1e7 frames (gain rounds to 1.0)", "infinite time constant (the envelope holds)"] {
         ctx.require_class(c);
     }
 
